@@ -120,3 +120,9 @@ package dkg
 //@   safetykinds nil dereference, index out of range
 //@   pure
 //@   ensures[C18.keyring.nonnil] result1 == nil ==> result0 != nil
+
+// kyber faults on some malformed deals that only their addressee can see (an encryption nonce of a wrong length makes
+// cipher.GCM panic inside DecryptDeal; an encrypted deal without a share is dereferenced in ProcessEncryptedDeal): whatever
+// a dealer sends, the addressee's machine must end the step with an error - which it reports - and not with a crash (C18,
+// defect D22). The step that hands foreign deals to kyber therefore recovers.
+//@ recovers[C18.kyber.recover,C11.kyber.recover] dkg.DKG).ProcessDeals
